@@ -153,6 +153,13 @@ func Verif_C16_Expansion() {
 	cfg.Vendor, cfg.Description = ref, ref
 	cfg.RPM.Packager = ref
 	cfg.Deb.Signature.KeyFile, cfg.RPM.Signature.KeyFile, cfg.APK.Signature.KeyFile = ref, ref, ref
+	// key ids are expandable too, with or without a key file next to them (callback signing)
+	noKeyFile := v.NondetBool("key.files.absent")
+	if noKeyFile {
+		cfg.Deb.Signature.KeyFile, cfg.RPM.Signature.KeyFile, cfg.APK.Signature.KeyFile = "", "", ""
+	}
+	idDeb, idRpm, idApk := ref, ref, ref
+	cfg.Deb.Signature.KeyID, cfg.RPM.Signature.KeyID, cfg.APK.Signature.KeyID = &idDeb, &idRpm, &idApk
 	cfg.Deb.Fields = map[string]string{"K": ref}
 	cfg.Depends = []string{ref}
 	cfg.Overrides = map[string]*Overridables{"deb": {Depends: []string{ref}}}
@@ -165,7 +172,12 @@ func Verif_C16_Expansion() {
 	v.Assert(cfg.Name == want && cfg.Version == want && cfg.Release == want && cfg.Prerelease == want, "version-fields-expanded")
 	v.Assert(cfg.Platform == want && cfg.Arch == want && cfg.Homepage == want && cfg.Maintainer == want, "identity-fields-expanded")
 	v.Assert(cfg.Vendor == want && cfg.Description == want && cfg.RPM.Packager == want, "descriptive-fields-expanded")
-	v.Assert(cfg.Deb.Signature.KeyFile == want && cfg.RPM.Signature.KeyFile == want && cfg.APK.Signature.KeyFile == want, "key-files-expanded")
+	if noKeyFile {
+		v.Assert(cfg.Deb.Signature.KeyFile == "" && cfg.RPM.Signature.KeyFile == "" && cfg.APK.Signature.KeyFile == "", "key-files-expanded")
+	} else {
+		v.Assert(cfg.Deb.Signature.KeyFile == want && cfg.RPM.Signature.KeyFile == want && cfg.APK.Signature.KeyFile == want, "key-files-expanded")
+	}
+	v.Assert(*cfg.Deb.Signature.KeyID == want && *cfg.RPM.Signature.KeyID == want && *cfg.APK.Signature.KeyID == want, "key-ids-expanded")
 	v.Assert(cfg.Deb.Fields["K"] == want, "custom-fields-expanded")
 	v.Assert(len(cfg.Depends) == 1 && cfg.Depends[0] == verifTrim(want), "list-items-expanded")
 	v.Assert(len(cfg.Overrides["deb"].Depends) == 1 && cfg.Overrides["deb"].Depends[0] == verifTrim(want), "override-list-items-expanded")
